@@ -46,8 +46,8 @@
        always enabled, so terminal states are the same).
    D5. `notify.map(|n| n.wake())` with `None` is still a (no-op, LNone) step [JWake false k].
    D6. The consumer's waker is a single abstract waker (`notify : bool`); calling it sets `cwoken`.
-   D7. `process.lock()` (l.370) is a mutex private to the job; [JProc] is labelled LNone.  The processing future is
-       one step producing `f item`.
+   D7. `process.lock()` (l.370) is the mutex of the processing closure (log class `pipeobj`, second instance); [JProc] is
+       labelled LProcess.  The processing future is one step producing `f item`.
    D8. When the job returns `true` at l.321/l.350 the step ends the job (`running := None`); when it returns false
        the job goes to [JClear] (l.148).  If `poll_fn` is already None at [JStart] (l.138 `as_mut()` is None) the
        job ends immediately.
@@ -55,7 +55,7 @@
 From stdpp Require Import list numbers option.
 From RecordUpdate Require Import RecordUpdate.
 
-Inductive label := LPollFn | LStream | LInput | LPipeWaker | LNone.
+Inductive label := LPollFn | LStream | LInput | LProcess | LPipeWaker | LNone.
 #[export] Instance label_eq_dec : EqDecision label. Proof. solve_decision. Defined.
 
 (* facts read from the source *)
@@ -232,7 +232,8 @@ Definition jpc_label (pc : jpc) : label :=
   | JStart | JClear => LPollFn
   | JFull | JClosedTake | JLoop | JPendStore | JEndClose | JPush _ => LStream
   | JInput => LInput
-  | JProc _ | JWake _ _ => LNone
+  | JProc _ => LProcess
+  | JWake _ _ => LNone
   end.
 Definition label_of (s : state) (a : actor) : label :=
   match a with
